@@ -324,6 +324,12 @@ FT == UNION {{Prog("FT", <<S(Asg("=", d, e))>>) : d \in {Var("c"), Var("s"), Var
                e \in {Cond(cc, x, y), Bin(">>", Cond(cc, x, y), Num(1)), Bin("<", Cond(cc, x, y), Num(5)), Bin("+", Cond(cc, x, y), Var("b"))}} :
              cc \in TCond, x \in TAlt, y \in TAlt \ {Num(200)}}
       \cup {Prog("FT", <<If(Cond(cc, x, y), <<Set("c", 1)>>, <<Set("c", 2)>>)>>) : cc \in TCond, x \in TAlt, y \in TAlt}
+\* FK: identifiers that begin with a keyword (elsev, returnv, dov) right where the keyword could stand
+FK == {Prog("FK", <<If(g, <<Set("b", 1)>>, <<>>), Set("elsev", 2), S(Asg("=", Var("c"), Var("elsev")))>>) : g \in {Var("a"), Bin("<", Var("a"), Var("b"))}}
+      \cup {Prog("FK", <<Set("returnv", 3), S(Inc(FALSE, 1, Var("returnv"))), S(Asg("=", Var("c"), Var("returnv")))>>),
+             Prog("FK", <<Set("dov", 2), Do(<<S(Inc(FALSE, -1, Var("dov"))), S(Inc(FALSE, 1, Var("c")))>>, Var("dov"))>>),
+             Prog("FK", <<If(Var("a"), <<Set("b", 1)>>, <<Set("elsev", 1)>>), S(Asg("+", Var("returnv"), Var("elsev"))), While(Var("dov"), <<S(Inc(FALSE, -1, Var("dov")))>>)>>),
+             Prog("FK", <<Switch(Var("a"), <<Case(<<1>>, <<Set("returnv", 1), Break>>), Default(<<Set("dov", 1)>>)>>), S(Asg("=", Var("elsev"), Bin("+", Var("dov"), Var("returnv"))))>>)}
 \* FG: goto.  Labels stand on top-level statements of main (CSem!RunBody); gotos sit at top level, inside if/else, loops,
 \* switch cases; backward (loops built from goto) and forward (skips), out of a loop, out of a switch, two labels.
 Goto(l) == [k |-> "goto", target |-> l]
@@ -413,7 +419,7 @@ RW == {Pair2("commute", <<S(Asg("=", d, Bin(op, l, r)))>>, <<S(Asg("=", d, Bin(o
       \cup {Pair2("callbody", <<S(Asg("=", d, Call("g", <<x, y>>)))>>, <<S(Asg("=", d, Bin("-", x, y)))>>) : d \in {Var("a"), Var("Y")}, x \in Arg, y \in {Var("b"), Num(1)}}
       \cup {Pair2("callbody", <<S(Call("h", <<>>)), S(Asg("=", Var("b"), Var("a")))>>, <<S(Inc(FALSE, 1, Var("a"))), S(Asg("=", Var("b"), Var("a")))>>)}
       \cup {Pair2("callbody", <<S(Call("w", <<x>>))>>, <<S(Asg("=", Var("c"), x))>>) : x \in Arg}
-AllFams == F5e \cup FT \cup FG \cup FP \cup FW \cup F3d \cup F4b \cup F5d \cup F8f \cup F8h \cup F8g \cup FL \cup F5c \cup F6 \cup F8 \cup F9 \cup F1a \cup F1b \cup F1c \cup F1d \cup F1e \cup F1f \cup F1g \cup F2a \cup F2b \cup F2c \cup F2z \cup F2s
+AllFams == FK \cup F5e \cup FT \cup FG \cup FP \cup FW \cup F3d \cup F4b \cup F5d \cup F8f \cup F8h \cup F8g \cup FL \cup F5c \cup F6 \cup F8 \cup F9 \cup F1a \cup F1b \cup F1c \cup F1d \cup F1e \cup F1f \cup F1g \cup F2a \cup F2b \cup F2c \cup F2z \cup F2s
            \cup F3a \cup F3b \cup F3c \cup F4 \cup F5a \cup F5b \cup F7a \cup F7b \cup F7c
 Family ==
   CASE Fam = "ALL" -> AllFams [] Fam = "RW" -> RW [] Fam = "FX" -> FX \cup FS
@@ -422,7 +428,7 @@ Family ==
     [] Fam = "F2a" -> F2a [] Fam = "F2b" -> F2b [] Fam = "F2c" -> F2c [] Fam = "F2z" -> F2z [] Fam = "F2s" -> F2s
     [] Fam = "F3a" -> F3a [] Fam = "F3b" -> F3b [] Fam = "F3c" -> F3c
     [] Fam = "F4" -> F4 [] Fam = "F5a" -> F5a [] Fam = "F5b" -> F5b
-    [] Fam = "F7a" -> F7a [] Fam = "F7b" -> F7b [] Fam = "F7c" -> F7c [] Fam = "FW" -> FW [] Fam = "FL" -> FL [] Fam = "F5c" -> F5c [] Fam = "F6" -> F6 [] Fam = "F8" -> F8 [] Fam = "F8g" -> F8g [] Fam = "FP" -> FP [] Fam = "FG" -> FG [] Fam = "FT" -> FT [] Fam = "F5e" -> F5e [] Fam = "F8f" -> F8f [] Fam = "F3d" -> F3d [] Fam = "F4b" -> F4b [] Fam = "F5d" -> F5d [] Fam = "F9" -> F9
+    [] Fam = "F7a" -> F7a [] Fam = "F7b" -> F7b [] Fam = "F7c" -> F7c [] Fam = "FW" -> FW [] Fam = "FL" -> FL [] Fam = "F5c" -> F5c [] Fam = "F6" -> F6 [] Fam = "F8" -> F8 [] Fam = "F8g" -> F8g [] Fam = "FP" -> FP [] Fam = "FG" -> FG [] Fam = "FT" -> FT [] Fam = "F5e" -> F5e [] Fam = "FK" -> FK [] Fam = "F8f" -> F8f [] Fam = "F3d" -> F3d [] Fam = "F4b" -> F4b [] Fam = "F5d" -> F5d [] Fam = "F9" -> F9
 
 VARIABLE prog
 Init == prog \in Family
